@@ -30,7 +30,7 @@ fn conversion_data(rng: &mut Rng) -> Vec<u8> {
 
 pub fn run(cfg: &Cfg, rep: &mut Report) {
     // (0) typed parameter conversions: no heap allocation inside Node::run whatever the handler converts to
-    let n = cfg.n(16, 60_000, 2_000_000);
+    let n = cfg.n(16, 60_000, 40_000_000);
     run_cases(cfg, "conversions", n, rep, |rng, ctx| {
         let conv = ALL_CONVS[(ctx.index % ALL_CONVS.len() as u64) as usize];
         let built = crate::props::c01_boundary::single_conversion_tree(conv);
@@ -53,7 +53,7 @@ pub fn run(cfg: &Cfg, rep: &mut Report) {
             }
         }
     });
-    let ntrees = cfg.n(32, 30_000, 600_000);
+    let ntrees = cfg.n(32, 30_000, 1_500_000);
     let nmsg = cfg.n(3, 12, 25) as usize;
     run_cases(cfg, "capacity", ntrees, rep, |rng, ctx| {
         let (specs, nh) = TreeGen::generate(rng, true);
